@@ -31,6 +31,9 @@ type C12WOp struct {
 	Inst int    `json:"inst"`
 	From int    `json:"from,omitempty"`
 	Adv  int    `json:"advance,omitempty"` // clean: how far the virtual clock moves first (index into c12wAdvances)
+	// Old (merge): not the newest but the previous snapshot of the peer is merged - its download had started before
+	// the newer one was published, or the newer one cannot be downloaded
+	Old bool `json:"old,omitempty"`
 }
 
 type C12WCase struct {
@@ -60,6 +63,7 @@ func checkC12Wired(c C12WCase, o *vcore.Obs) error {
 	nWrites := 0
 	deletedNewest, deletedOld := 0, 0
 	failedUploads := 0
+	mergedOld := 0
 	logPos := 0
 	newest := func(inst string) string { return f.NewestBlobOf(inst) }
 	for oi, op := range c.Ops {
@@ -116,6 +120,21 @@ func checkC12Wired(c C12WCase, o *vcore.Obs) error {
 				continue
 			}
 			b := newest(f.Insts[j].Name)
+			if op.Old {
+				var mine []string
+				for _, bl := range f.Blobs {
+					if bl.By == f.Insts[j].Name {
+						if _, still := f.B.Get(bl.Name); still {
+							mine = append(mine, bl.Name)
+						}
+					}
+				}
+				if len(mine) < 2 {
+					continue
+				}
+				b = mine[len(mine)-2]
+				mergedOld++
+			}
 			if b == "" {
 				continue
 			}
@@ -174,6 +193,7 @@ func checkC12Wired(c C12WCase, o *vcore.Obs) error {
 	o.ClassIf(c.Native, "native")
 	o.ClassIf(!c.Native, "shadow")
 	o.ClassIf(failedUploads > 0, "upload-that-failed-on-every-attempt")
+	o.ClassIf(mergedOld > 0, "merged-a-snapshot-that-was-no-longer-the-newest-of-its-instance")
 	return nil
 }
 
@@ -185,6 +205,7 @@ func genC12Wired(t *rapid.T) C12WCase {
 		switch op.Kind {
 		case "merge":
 			op.From = rapid.IntRange(0, c.N-1).Draw(t, "from")
+			op.Old = rapid.IntRange(0, 3).Draw(t, "old") == 0
 		case "clean":
 			op.Adv = rapid.IntRange(0, len(c12wAdvances)-1).Draw(t, "adv")
 		}
@@ -196,8 +217,13 @@ func genC12Wired(t *rapid.T) C12WCase {
 		i := rapid.IntRange(0, c.N-1).Draw(t, "ti")
 		j := (i + 1 + rapid.IntRange(0, c.N-2).Draw(t, "tj")) % c.N
 		c.Ops = append(c.Ops, C12WOp{Kind: "write", Inst: j}, C12WOp{Kind: "upload", Inst: j})
+		tOld := rapid.IntRange(0, 3).Draw(t, "told") == 0
+		if tOld {
+			// j publishes once more; what i merges (later than that) is j's previous snapshot
+			c.Ops = append(c.Ops, C12WOp{Kind: "write", Inst: j}, C12WOp{Kind: "upload", Inst: j})
+		}
 		if rapid.IntRange(0, 3).Draw(t, "tmerge") > 0 {
-			c.Ops = append(c.Ops, C12WOp{Kind: "merge", Inst: i, From: j})
+			c.Ops = append(c.Ops, C12WOp{Kind: "merge", Inst: i, From: j, Old: tOld})
 		}
 		switch rapid.IntRange(0, 4).Draw(t, "tupload") {
 		case 0:
